@@ -1313,10 +1313,17 @@ def e_cross_act(c):
     D = int(c.rng.integers(1, 3))
     X_list = c.own([c.tt(r=2) for _ in range(D)], shallow=True)
 
+    kept = {'n': 0}
+
     def f(X):
         c.monitor('cross_act.f')
         X = np.asarray(X)
-        return np.sin(X).sum(axis=1) if X.ndim == 2 else np.sin(X)
+        out = np.sin(X).sum(axis=1) if X.ndim == 2 else np.sin(X)
+        if kept['n'] < 3 and isinstance(out, np.ndarray):
+            # an objective that keeps what it returned (log, memo, reusable buffer): the array stays the caller's
+            kept['n'] += 1
+            return c.own(out)
+        return out
     Y0 = c.tt(r=1)
     kw = {'e': float(_pick(c, [1e-6, 1e-2])), 'nswp': int(c.rng.integers(1, 3)), 'r': int(c.rng.integers(2, 5)),
           'dr': int(c.rng.integers(0, 3)), 'dr2': int(c.rng.integers(0, 2)), 'seed': c.seed()}
